@@ -11,6 +11,14 @@ from common import *
 
 NAMES = ['mu', 'sigma', 'a', 'b', 't1', 't2', 'Z', 'alpha', 'x_0', 'k']
 
+# absolute scales at which the convergence diagnostics are exercised on every run (tiny: within-chain variance far below
+# 1e-8, the default absolute tolerance of np.isclose; huge: variance above 1e10)
+SCALES = [1e-7, 1e-6, 1e-5, 1e-3, 1e3, 1e5, 1e6, 1e7]
+DIAG_STYLES = ['ar', 'iid', 'shifted', 'trend', 'disagree']
+A_MODERATE = [-3.0, -1.0, -0.5, 0.25, 2.0, 7.0, 0.125, -16.0]
+B_UNITS = [0.0, 1.0, -2.5, 100.0, -37.25]
+REL_DIAG = 1e-6                               # RELATIVE tolerance of the python-side scale sweep (R-hat, ESS are dimensionless)
+
 
 def _dy(r, den=16, top=2000):
     """a dyadic value k/den (exact in binary64)"""
@@ -51,25 +59,30 @@ class C16(PropCheck):
     chunk = 120
     rule = ('Sample/SmcSample/BslSample built from known arrays with pairwise distinct entries, 1-4 parameters whose order differs '
             'from the insertion order of outputs, extra non-parameter outputs, weights or none; BolfiSample from (1-4 chains, N, 1-4 '
-            'params) arrays with warm-up 0..N+1; gelman_rubin_statistic / eff_sample_size on 1-4 chains plus affine and permuted '
-            'copies; non-trivial = sample with >=2 parameters listed in an order different from the outputs dict, or BOLFI sample '
+            'params) arrays with warm-up 0..N+1; gelman_rubin_statistic / eff_sample_size on 1-4 chains (mixed, shifted, trending, '
+            'strongly disagreeing; data at unit scale and multiplied by 1e-7..1e-3 / 1e3..1e7, every style x scale pair in every run) '
+            'plus affine copies a x + b with moderate a and with |a| in {1e-7,1e-6,1e-5,1e-3,1e3,1e5,1e6,1e7} and permuted copies; '
+            'python-side sweep of every case over all +-scales against the exact rational textbook values (relative 1e-6); non-trivial = sample with >=2 parameters listed in an order different from the outputs dict, or BOLFI sample '
             'with >=2 chains and 0<warmup<N, or diagnostics with >=2 chains whose ESS loop adds >=1 term; distinct by input')
     trusted = ('numpy.fft autocovariance in eff_sample_size is compared with the direct lag sum of the model within 1e-6 (oracle)',
                'binary64 vs exact rationals: means within 1e-9 (exactly on dyadic inputs), R-hat^2 / ESS within 1e-6; quantile levels '
                'closer than 1e-9 to a cumulative-weight boundary are not queried unless the arithmetic is exact',
-               'pickle/json/csv round trips are differential tests on the python side only (no theorem)')
+               'pickle/json/csv round trips are differential tests on the python side only (no theorem)',
+               'scale sweep of the diagnostics: exact Fraction re-implementation of the textbook R-hat^2 / ESS formulas in harness/c16.py '
+               '(_exact_diag) is the reference for the copies s*(x+c); the Coq clauses ok/agree see the chains as given (unit, tiny and huge) '
+               'and one affine copy per case; R-hat and ESS are dimensionless, so all tolerances on them are scale-free')
 
     # ------------------------------------------------------------------------------------------
     def generate(self):
         r = self.rng
         q = self.tier == 'quick'
-        n_sample, n_bolfi, n_diag, n_bad = (260, 220, 200, 80) if q else (3200, 2600, 2400, 900)
+        n_sample, n_bolfi, n_diag, n_bad = (260, 220, 240, 80) if q else (3200, 2600, 2400, 900)
         for _ in range(n_sample):
             yield self.gen_sample()
         for _ in range(n_bolfi):
             yield self.gen_bolfi()
-        for _ in range(n_diag):
-            yield self.gen_diag()
+        for j in range(n_diag):
+            yield self.gen_diag(j)
         for _ in range(n_bad):
             yield self.gen_malformed()
 
@@ -128,22 +141,38 @@ class C16(PropCheck):
         self.bump('bolfi:warmup=%s' % ('0' if w == 0 else 'N-1' if w == N - 1 else '>=N' if w >= N else 'mid'))
         return dict(kind='bolfi', names=names, chains=chains, warmup=w, fmt=r.choice(['pkl', 'json', 'csv']))
 
-    def gen_diag(self):
+    def gen_diag(self, j=None):
+        """diagnostics case number j.  The absolute scale of the data is NOT left to chance: j mod 4 selects
+        0: unit-scale chains, moderate a, b (the original stream);
+        1: unit-scale chains, a = +-s;          2: chains multiplied by s, moderate a;
+        3: chains multiplied by s, a = +-s'     (s, s' in SCALES),
+        and j div 4 walks through DIAG_STYLES x SCALES, so every (style, scale) pair - in particular strongly disagreeing
+        chains and mixed ones at 1e-7 .. 1e-5 and 1e5 .. 1e7 - occurs in each of the modes 1-3 in every run of >= 160 cases."""
         r = self.rng
-        m = r.randint(1, 4)
+        if j is None:
+            j = r.randrange(1 << 20)
+        mode, qi = j % 4, j // 4
+        if mode == 0:
+            style = r.choice(['ar', 'ar', 'iid', 'shifted', 'trend', 'disagree'])
+        else:
+            style = DIAG_STYLES[qi % len(DIAG_STYLES)]
+        s_idx = (qi // len(DIAG_STYLES)) % len(SCALES)
+        m = r.randint(2, 4) if style == 'disagree' else r.randint(1, 4)
         N = r.randint(4, 14)
-        style = r.choice(['ar', 'ar', 'iid', 'shifted', 'trend'])
         chains = []
         seen = set()
+        offs = r.sample([-12, -7, -3, 2, 6, 11, 17], m) if style == 'disagree' else None
         for c in range(m):
             x = r.gauss(0, 1)
             ch = []
-            off = r.choice([0, 0, 3, -5]) if style == 'shifted' else 0
+            off = r.choice([0, 0, 3, -5]) if style == 'shifted' else offs[c] if style == 'disagree' else 0
             for t in range(N):
                 if style in ('ar', 'shifted'):
                     x = 0.8 * x + r.gauss(0, 0.6)
                 elif style == 'trend':
                     x = x + 0.3 + r.gauss(0, 0.2)
+                elif style == 'disagree':
+                    x = 0.5 * x + r.gauss(0, 0.4)        # chains far apart compared with their spread: R-hat well above 1
                 else:
                     x = r.gauss(0, 1)
                 v = round((x + off) * 64) / 64
@@ -152,13 +181,27 @@ class C16(PropCheck):
                 seen.add(v)
                 ch.append(v)
             chains.append(ch)
-        a = r.choice([-3.0, -1.0, -0.5, 0.25, 2.0, 7.0, 0.125, -16.0])
-        b = r.choice([0.0, 1.0, -2.5, 100.0, -37.25])
+        s0 = SCALES[s_idx] if mode in (2, 3) else 1.0
+        if s0 != 1.0:
+            chains = [[s0 * v for v in ch] for ch in chains]      # distinct k/64 stay distinct after one rounding
+        if mode in (0, 2):
+            a = r.choice(A_MODERATE)
+        else:
+            a = r.choice([-1.0, 1.0]) * (SCALES[s_idx] if mode == 1 else SCALES[(s_idx + 1 + qi) % len(SCALES)])
+        b0 = r.choice(B_UNITS)
+        # the shift is commensurate with the shifted data (a*s0*(v + b0)) so that a*x + b does not cancel in binary64;
+        # the original stream keeps its independent b
+        b = b0 if mode == 0 else a * s0 * b0
         perm = list(range(m))
         r.shuffle(perm)
         self.bump('diag:chains=%d' % m)
         self.bump('diag:style=' + style)
-        return dict(kind='diag', chains=chains, a=a, b=b, perm=perm, one_d=(m == 1 and r.random() < 0.5))
+        self.bump('diag:data_scale=%g' % s0)
+        self.bump('diag:|a|=%g' % abs(a) if abs(a) in SCALES else 'diag:|a|=moderate')
+        if style == 'disagree' and (s0 != 1.0 or abs(a) in SCALES):
+            self.bump('diag:disagree_at_scale')
+        return dict(kind='diag', chains=chains, a=a, b=b, perm=perm, one_d=(m == 1 and r.random() < 0.5), style=style,
+                    data_scale=s0, shift_units=b0)
 
     def gen_malformed(self):
         r = self.rng
@@ -388,6 +431,38 @@ class C16(PropCheck):
                 break
         return terms
 
+    @staticmethod
+    def _exact_diag(x):
+        """textbook split R-hat^2 (BDA3 11.3-11.4) and ESS = m n / (1 + 2 sum rho_t) (variogram rho, direct-sum
+        autocovariance, truncated at the first negative term) in exact rational arithmetic on the given binary64 values"""
+        x = [[Fraction(float(v)) for v in ch] for ch in np.atleast_2d(np.array(x, dtype=float))]
+
+        def mean(l):
+            return sum(l, Fraction(0)) / len(l)
+
+        def var1(l):
+            mu = mean(l)
+            return sum(((v - mu) ** 2 for v in l), Fraction(0)) / (len(l) - 1)
+
+        n = len(x[0]) // 2
+        halves = [h for ch in x for h in (ch[:n], ch[n:2 * n])]
+        W = mean([var1(h) for h in halves])
+        B = n * var1([mean(h) for h in halves])
+        rhat2 = ((n - 1) * W + B) / n / W
+        m, N = len(x), len(x[0])
+        W = mean([var1(ch) for ch in x])
+        B = Fraction(0) if m == 1 else N * var1([mean(ch) for ch in x])
+        vp = ((N - 1) * W + B) / N
+        d = [[v - mean(ch) for v in ch] for ch in x]
+        acc = Fraction(0)
+        for lag in range(1, N):
+            ac = mean([sum((dj[t] * dj[t + lag] for t in range(N - lag)), Fraction(0)) / (N - lag) for dj in d])
+            t = 1 - (W - ac) / vp
+            if t < 0:
+                break
+            acc += t
+        return rhat2, Fraction(m * N) / (1 + 2 * acc)
+
     def run_diag(self, case):
         from elfi.methods.mcmc import eff_sample_size, gelman_rubin_statistic
         x = np.array(case['chains'], dtype=float)
@@ -402,6 +477,19 @@ class C16(PropCheck):
         terms = self._ref_terms(x)
         out['terms'] = terms
         out['near_break'] = bool(any(abs(t) < 1e-6 for t in terms))
+        # scale sweep: the implementation on s*(x + c) for EVERY s in SCALES (c in data units), each answer next to the exact
+        # textbook value on those very binary64 inputs; compared in py_check with a purely relative tolerance
+        s0 = case.get('data_scale', 1.0)
+        shift = s0 * case.get('shift_units', 0.0)
+        r2, e = self._exact_diag(x)
+        out['exact'] = [float(r2), float(e)]
+        out['sweep'] = []
+        for s in SCALES:
+            for sg in (s, -s):
+                xs = sg * (x + shift)
+                r2s, es = self._exact_diag(xs)
+                out['sweep'].append([sg, float(gelman_rubin_statistic(arg(xs))), float(eff_sample_size(arg(xs))), float(r2s), float(es),
+                                     float(xs.var(1, ddof=1).mean())])
         return out
 
     # ------------------------------------------------------------------------------------------
@@ -411,6 +499,7 @@ class C16(PropCheck):
             for k in ('rhat', 'ess', 'rhat_aff', 'ess_aff', 'rhat_perm', 'ess_perm'):
                 if not math.isfinite(out[k]):
                     fails.append(('diag_finite', '%s = %r on chains with distinct entries' % (k, out[k])))
+            fails.extend(self._sweep_check(case, out))
             return fails
         if not out.get('built'):
             return fails
@@ -436,6 +525,37 @@ class C16(PropCheck):
             if out.get('meta') != [len(case['chains']), case['warmup']]:
                 fails.append(('bolfi_meta', 'n_chains/warmup meta %s' % out.get('meta')))
         return fails
+
+    def _sweep_check(self, case, out):
+        """R-hat and ESS are dimensionless: on s*(x + c) they must equal (relative REL_DIAG) the implementation's own answer
+        on x AND the exact textbook value at that scale, for every s in +-SCALES; the same two comparisons for the chains as
+        given (which are themselves tiny / huge in modes 2, 3) and for the case's a*x + b copy."""
+        fails = []
+
+        def rel(u, v):
+            return math.isfinite(u) and math.isfinite(v) and abs(u - v) <= REL_DIAG * abs(v)
+
+        ess_ok = not out['near_break']          # a variogram term within 1e-6 of 0: the truncation point is not stable in binary64
+        r2, e = out['exact']
+        if not rel(out['rhat'] ** 2, r2):
+            fails.append(('diag_formula_rhat', 'data scale %g: R-hat^2 = %r, textbook %r' % (case.get('data_scale', 1.0), out['rhat'] ** 2, r2)))
+        if ess_ok and not rel(out['ess'], e):
+            fails.append(('diag_formula_ess', 'data scale %g: ESS = %r, formula %r' % (case.get('data_scale', 1.0), out['ess'], e)))
+        if not rel(out['rhat_aff'], out['rhat']):
+            fails.append(('diag_affine_rhat', 'a = %r, b = %r: R-hat(a x + b) = %r, R-hat(x) = %r' % (case['a'], case['b'], out['rhat_aff'], out['rhat'])))
+        if ess_ok and not rel(out['ess_aff'], out['ess']):
+            fails.append(('diag_affine_ess', 'a = %r, b = %r: ESS(a x + b) = %r, ESS(x) = %r' % (case['a'], case['b'], out['ess_aff'], out['ess'])))
+        for sg, rh, es, r2s, es_x, w in out['sweep']:
+            self.bump('diag:sweep_W<1e-8' if w < 1e-8 else 'diag:sweep_W>1e8' if w > 1e8 else 'diag:sweep_W_mid')
+            if not rel(rh, out['rhat']):
+                fails.append(('diag_scale_affine_rhat', 's = %g (W = %.3g): R-hat(s(x+c)) = %r, R-hat(x) = %r' % (sg, w, rh, out['rhat'])))
+            if not rel(rh ** 2, r2s):
+                fails.append(('diag_scale_formula_rhat', 's = %g (W = %.3g): R-hat^2 = %r, textbook %r' % (sg, w, rh ** 2, r2s)))
+            if ess_ok and not rel(es, out['ess']):
+                fails.append(('diag_scale_affine_ess', 's = %g (W = %.3g): ESS(s(x+c)) = %r, ESS(x) = %r' % (sg, w, es, out['ess'])))
+            if ess_ok and not rel(es, es_x):
+                fails.append(('diag_scale_formula_ess', 's = %g (W = %.3g): ESS = %r, formula %r' % (sg, w, es, es_x)))
+        return fails[:6]
 
     def nontrivial(self, case, out):
         if case.get('malformed'):
